@@ -820,6 +820,8 @@ func (r *reader) read(src []byte) {
 			r.pushChar(src)
 		case intMode:
 			r.pushInteger(src)
+		case sharpMode, sharpNumMode, mustArrayMode:
+			r.raise("sharp macro not terminated")
 		case bitVectorMode:
 			bv := ReadBitVector(r.makeToken(src))
 			if 0 < len(r.stack) {
